@@ -248,6 +248,19 @@ def refused_ok(exc):
 
 
 def execute(sim, plan, extra=None):
+    import os
+
+    if os.environ.get("VERIF_DUMP_LOG"):
+        try:
+            return _execute(sim, plan, extra)
+        finally:
+            with open(os.environ["VERIF_DUMP_LOG"] + ".%s.%d" % (sim.digest()[:8], os.getpid()), "w") as f:
+                for e in sim.log:
+                    f.write(" | ".join(e) + "\n")
+    return _execute(sim, plan, extra)
+
+
+def _execute(sim, plan, extra=None):
     warm()
     T.quiet()
     world.setup_sim(sim)
